@@ -48,7 +48,7 @@ Section SynExt.
   Lemma tcond_ext c : forall io st p st',
     cond_shape sc sel root c = true -> tcond sc vars sel root io st c = ROk p st' -> ext st st'.
   Proof.
-    induction c as [op l r|ct it|p1 IH1 q1 IH2|p1 IH1 q1 IH2|p1 _|x]; intros io st p st' Hc H;
+    induction c as [op l r|ct it|p1 IH1 q1 IH2|p1 IH1 q1 IH2|p1 _|x|cs0 it0]; intros io st p st' Hc H;
       cbn [cond_shape] in Hc; try discriminate.
     - destruct l as [v ch| | |]; try discriminate. apply andb_true_iff in Hc. destruct Hc as [Hc _].
       apply andb_true_iff in Hc. destruct Hc as [Hc1 Hc2].
@@ -176,7 +176,7 @@ Section Syn2.
     { intros c0 io st p st' Hc Hs H. assert (E := tcond_ext sc sel root vars c0 io st p st' Hc H).
       split; [eapply tstruct_ext; eauto|]. split; [destruct E as [I _]; now rewrite I|].
       eapply tcond_safe; eauto. }
-    induction c as [op l r|ct it|p1 IH1 q1 IH2|p1 IH1 q1 IH2|p1 _|x]; intros io st p st' Hc Hs H;
+    induction c as [op l r|ct it|p1 IH1 q1 IH2|p1 IH1 q1 IH2|p1 _|x|cs0 it0]; intros io st p st' Hc Hs H;
       cbn [cond_shape2] in Hc; try discriminate.
     - assert (NJ : join_atom sel v2 l r = None \/ op <> OEq -> 
                    tstruct st' /\ (has_join sel v2 (CCmp op l r) = true -> j_inst st' <> []) /\ (j_inst st <> [] -> j_inst st' <> []) /\
@@ -299,7 +299,7 @@ Section Data2.
       exists (Some p), st', more, b, true. split; [exact T|]. split; [exact I|]. split; [exact R|]. split; [exact E|].
       split; [rewrite (ons_ext st st' (tcond_ext sc sel root vars c0 io st (Some p) st' Hs T)); now rewrite andb_true_r|].
       split; [intros more'; simpl; now rewrite V|]. intros _. split; [reflexivity|discriminate]. }
-    induction c as [op l r|ct it|p1 IH1 q1 IH2|p1 IH1 q1 IH2|p1 _|x]; intros io st env Hi Hs He Hc Hd;
+    induction c as [op l r|ct it|p1 IH1 q1 IH2|p1 IH1 q1 IH2|p1 _|x|cs0 it0]; intros io st env Hi Hs He Hc Hd;
       cbn [cond_shape2 cond_ok2] in Hc, Hd; try discriminate.
     - (* comparison: an equality join, or an atom over the selected variable *)
       assert (NJ : (join_atom sel v2 l r = None \/ op <> OEq) ->
@@ -593,7 +593,7 @@ Lemma tcond2_total sc sel root v2 c2 (Hne : (v2 =? sel) = false) (Hrel : related
   forall io st, tstruct c2 st -> exists p st', tcond sc [(sel, root); (v2, c2)] sel root io st c = ROk p st'.
 Proof.
   assert (Hv := vars_sel sel root v2 c2).
-  induction c as [op l r|ct it|p1 IH1 q1 IH2|p1 IH1 q1 IH2|p1 _|x]; intros Hc io st Hs; cbn [cond_shape2] in Hc; try discriminate.
+  induction c as [op l r|ct it|p1 IH1 q1 IH2|p1 IH1 q1 IH2|p1 _|x|cs0 it0]; intros Hc io st Hs; cbn [cond_shape2] in Hc; try discriminate.
   - assert (NJ : cond_shape sc sel root (CCmp op l r) = true ->
                  exists p st', tcond sc [(sel, root); (v2, c2)] sel root io st (CCmp op l r) = ROk p st').
     { intros Hc'. destruct (tcond_total sc sel root _ Hv _ Hc' io st) as [p [st' T]]. eauto. }
@@ -686,6 +686,11 @@ Module WitJ.
   Definition q_noneref := Wit.mk false [(1, 4)] (CCmp OEq (OAttr 1 [7; 3]) (OLit (VInt 1))).
   Definition q_setof := {| q_the := false; q_setof := true; q_sel := 1; q_vars := [(1, 1)];
                            q_cond := Some (CCmp OGe (OAttr 1 [3]) (OLit (VInt 1))) |}.
+  (* entity(p, in_(p.x, {1, 2})) *)
+  Definition q_inset := Wit.mk false [(1, 1)] (CInSet [VInt 1; VInt 2] (OAttr 1 [3])).
+  (* entity(f, b == f.parent) and entity(f, f.parent == b), b : Body *)
+  Definition q_namedvar := Wit.mk false [(1, 8); (2, 5)] (CCmp OEq (OVar 2) (OAttr 1 [10])).
+  Definition q_namedvar_right := Wit.mk false [(1, 8); (2, 5)] (CCmp OEq (OAttr 1 [10]) (OVar 2)).
 End WitJ.
 
 Lemma nonvacuous_join :
@@ -713,6 +718,16 @@ Lemma refuted_noneref :
   f07 Wit.sc WitJ.q_noneref_or WitJ.wn = false.
 Proof. repeat split; vm_compute; reflexivity. Qed.
 
-Lemma refuted_setof :
-  translate Wit.sc WitJ.q_setof = TCrash /\ answers Wit.sc WitJ.q_setof Wit.w = Ok [1].
+(* repaired (cbfdb2e): a set_of query is rejected *)
+Lemma fixed_setof : translate Wit.sc WitJ.q_setof = TReject.
+Proof. vm_compute; reflexivity. Qed.
+Theorem rejects_setof sc q : q_setof q = true -> translate sc q = TReject.
+Proof. intros H. unfold translate. now rewrite H. Qed.
+
+Lemma refuted_setlit :       (* in_(p.x, {1, 2}): the set is bound as one parameter -> execution fails; memory answers *)
+  model_res Wit.sc WitJ.q_inset Wit.w = Some (Err TypeErr) /\ answers Wit.sc WitJ.q_inset Wit.w = Ok [1].
 Proof. split; vm_compute; reflexivity. Qed.
+Lemma refuted_namedvar :     (* entity(f, b == f.parent), b : Body (has a name): WHERE false; the other order is rejected *)
+  model_res Wit.sc WitJ.q_namedvar Wit.w = Some (Ok []) /\ answers Wit.sc WitJ.q_namedvar Wit.w = Ok [10; 10; 11; 11] /\
+  translate Wit.sc WitJ.q_namedvar_right = TReject.
+Proof. repeat split; vm_compute; reflexivity. Qed.
